@@ -25,7 +25,9 @@ var edgeInts = []int{0, 1, -1, 7, 1000000, -999999, math.MaxInt, math.MinInt}
 var edgeFloats = []float64{0.5, 1.0, -0.0, 123456.0, 1e6, 999999.5, 1e-6, 1.5e-7, 5e-324, 1e300, -1e-300, 1.7976931348623157e308, 0.1, 1234567.0, 100.0, 3.0e21,
 	float64(float32(0.1)), 1 + 1.0/8388608, 12345678848.0, 2e9, -3e-300, 5e-7, 1e21, 16777217.0, 9007199254740993.0}
 var edgeStrings = []string{"", "a", "a\"b", "back\\slash", "/", "\n\t\r", "\x01", "\a\v", "\x7f", "  ", "�", "\U0001F600", "\U000E0001", "é", "[{,:}]", "null", "1.0", " "}
-var edgeKeys = []string{"", "k", ".a", "#b", "a.b", "q\"t", "\x01", "�", "é", "\U0001F600", "50%", "a%sb", "%d", "100%!", "k\\", "\\\\", "e\x1b", "n\n"}
+var edgeKeys = []string{"", "k", ".a", "#b", "a.b", "q\"t", "\x01", "�", "é", "\U0001F600", "50%", "a%sb", "%d", "100%!", "k\\", "\\\\", "e\x1b", "n\n",
+	// white space inside keys is content (raw space, NBSP, NEL, ideographic space; keys that differ only in it)
+	" ", "first name", "a b", "ab", "\u00a0", "x\u3000y", "\u0085", " lead", "trail "}
 
 type leafSpec struct {
 	id  string
